@@ -80,6 +80,7 @@ Lemma exec_top_ok progs fuel t s o l s' :
                                      | TCreate _ _ => untouched s s' \/
                                          exists address orc, oracle s = address :: orc /\
                                            untouched (create_pre (mkCtx (t_origin t) false 0 (t_origin t)) address orc s) s'
+                                     | TNone => untouched s s'
                                      end).
 Proof.
   intros W H. unfold exec_top in H. destruct (t_kind t).
@@ -87,6 +88,7 @@ Proof.
     split; auto. intros F. apply noop_untouched; auto.
   - destruct (do_create_ok progs (run progs fuel) (run_ok progs fuel) _ _ _ _ _ _ _ W H) as (G & _).
     split; auto. intros F. eapply failed_create_noop; eauto.
+  - inversion H; subst. split; [apply good_refl; auto | intros F; discriminate].
 Qed.
 
 (* only the log list of the transaction's own hash can change; the others are exactly as they were *)
